@@ -188,12 +188,15 @@ func (r *runner) do(op string) string {
 	if r.p.Stateful && toks[0] == "reset" {
 		r.flushHistory()
 	}
+	// the op is on disk before the implementation runs: if the process dies
+	// (fatal runtime error, OOM, timeout) the last line of ops.txt is the culprit
+	r.ops.WriteString(op)
+	r.ops.WriteByte('\n')
+	r.ops.Flush()
 	out := safeExec(r.p, toks)
 	if strings.ContainsAny(out, "\n\r") {
 		out = strings.ReplaceAll(strings.ReplaceAll(out, "\n", "\\n"), "\r", "")
 	}
-	r.ops.WriteString(op)
-	r.ops.WriteByte('\n')
 	r.impl.WriteString(out)
 	r.impl.WriteByte('\n')
 	r.evals++
